@@ -14,17 +14,18 @@ type NStr string
 
 // Wide covers the column kinds a live filter can name.
 type Wide struct {
-	Id  int64 `sql:",primary"`
-	I32 int32
-	U8  uint8
-	S   string
-	NS  NStr `sql:"ns"`
-	B   bool
-	F   float64
-	P   *int64
-	PS  *string `sql:"ps"`
-	By  []byte
-	IN  int64 `sql:"in,implicitnull"`
+	Id   int64  `sql:",primary"`
+	Skip string `sql:"-"`
+	I32  int32
+	U8   uint8
+	S    string
+	NS   NStr `sql:"ns"`
+	B    bool
+	F    float64
+	P    *int64
+	PS   *string `sql:"ps"`
+	By   []byte
+	IN   int64 `sql:"in,implicitnull"`
 }
 
 func ps(s string) *string { return &s }
